@@ -186,7 +186,7 @@ _p('C12', 'model_checking', 'DESIGN.md 5/C12',
 
 _p('C07', 'model_checking', 'DESIGN.md 5/C07',
    [BOUNDED_ASSUME, STEP_ASSUME, CALLBACK_ASSUME, HIST_ASSUME,
-    "proved: cstl_fls for all 2^64 inputs; the index arithmetic of cstl_heap_find for every id < 2^32-1 (no undefined shift, mask = highest bit below the leading one)",
+    "proved: cstl_fls for all 2^64 inputs; the index arithmetic of cstl_heap_find for every id < 2^32-1 (no undefined shift) and its descent for every id and every step (floor(log2(id+1)) steps, direction of step j = bit depth-j of id+1; loop of <= 32 iterations closed by unwinding)",
     "step: cstl_heap_promote_child on explicit distinct node objects, 48 neighbour combinations",
     "bounded: every key sequence of length <= 4 (thorough: 5) over {0,1,2} pushed then popped; mixed push/pop with pops at every size 1..8; clear on sizes 0..7 with poisoning and freeing callbacks; after every operation: completeness (level-order numbers exactly 0..size-1), parent links, heap order, membership, size, get == a maximal element"],
    [NORM])
